@@ -158,6 +158,15 @@ def h_tdvp_numeric(V, family, N, seed, method, order):
                 # norm on the first site tensor (the '1site' sweep moves it to psi.factor) -- an observation, not demanded here
                 V.check('real-time:state-canonical-towards-first', bool(psi.is_canonical(to='first', tol=1e-8)))
         V.check('one-result-per-snapshot', k == len(times) - 1)
+    # an initial state that is NOT canonical (as random_mps returns it): tdvp_ canonizes it first
+    ops.random_seed(seed + 3)
+    psi = mps.random_mps(I, D_total=64, dtype='complex128', **kw)
+    v0 = dense_in_space(ops, psi)
+    for out in mps.tdvp_(psi, H, times=(0.0, 0.2), dt=0.05, u=1j, method=method, order=order, normalize=False, opts_expmv={'hermitian': True, 'tol': 1e-12}, **opts):
+        pass
+    ref = scipy.linalg.expm(-1j * 0.2 * Hm) @ v0
+    V.check('non-canonical-initial-state:full-manifold-evolution-equals-expm(-u.t.H)',
+            np.linalg.norm(dense_in_space(ops, psi) - ref) <= (2e-5 if order == '2nd' else 1e-7) * max(1.0, np.linalg.norm(ref)))
     # performance / bookkeeping flags: precompute, a sum of MPOs, subtract_E (changes the global phase only), normalize, yield_initial
     ops.random_seed(seed + 3)
     psi = mps.random_mps(I, D_total=64, dtype='complex128', **kw)
